@@ -198,6 +198,9 @@ void list_output_8051(
     fprintf(asm_context->list, "0x%04x: %-10s %-40s cycles:", start, temp, instruction);
 
     start += count;
+
+    // One instruction per line when the range holds several.
+    if (start < end) { fprintf(asm_context->list, "\n"); }
   }
 }
 
